@@ -172,6 +172,9 @@ class Models:
         R(r"^core::option::Option::<T>::(is_some|is_none)$|^core::result::Result::<T, E>::(is_ok|is_err)$", m_is_variant, "is_some/is_none/is_ok/is_err test the variant")
         R(r"^core::option::Option::<T>::(unwrap_or|unwrap_or_default)$|^core::result::Result::<T, E>::(unwrap_or|unwrap_or_default)$", m_unwrap_or, "unwrap_or(d)/unwrap_or_default: the contained value, else d / Default::default()")
         R(r"^core::option::Option::<&T>::(copied|cloned)$|^core::option::Option::<&mut T>::(copied|cloned)$", m_copied, "Option<&T>::copied/cloned: Some(&v) => Some(v)")
+        R(r"^core::option::Option::<T>::(map_or|map|and_then|is_some_and|is_none_or|map_or_else)$", m_opt_comb, "Option combinators: apply the closure to the contained value (Some) or take the default (None)")
+        R(r"^core::result::Result::<T, E>::(map|map_err)$", m_res_comb, "Result::map / map_err apply the closure to the Ok / Err payload")
+        R(r"^core::option::Option::<T>::ok_or$", lambda ci: (ok(ci.ev, ci.args[0][4][0]) if ci.args[0][3] == "Some" else err(ci.ev, ci.args[1])) if ci.args[0][0] == "adt" else None, "Option::ok_or")
         R(r"^core::slice::<impl \[T\]>::first$", m_first, "slice::first: Some(&s[0]) unless the slice is empty")
         R(r"^core::slice::<impl \[T\]>::get$", m_slice_get, "slice::get(i): Some(&s[i]) iff i < len")
         R(r"^core::result::Result::<T, E>::ok$", m_result_ok, "Result::ok: Ok(v) => Some(v), Err(_) => None")
@@ -188,7 +191,7 @@ class Models:
         R(r"^core::iter::traits::iterator::Iterator::enumerate$", lambda ci: ("iter", "enumerate", ci.args[0]), "Iterator::enumerate pairs items with 0,1,2,…")
         R(r"^core::iter::traits::iterator::Iterator::map$", lambda ci: ("iter", "map", ci.args[0], ci.args[1]), "Iterator::map applies f to each item")
         R(r"^core::iter::sources::once::once$", lambda ci: ("iter", "once", ci.args[0]), "iter::once yields exactly one item")
-        R(r"^core::iter::traits::iterator::Iterator::collect$", lambda ci: ("app", "collect", (ci.args[0],)), "Iterator::collect::<Vec<_>> gathers all items in order")
+        R(r"^core::iter::traits::iterator::Iterator::collect$", lambda ci: ("app", "collect:" + ci._sub(ci.dest["ty"]), (ci.args[0],)), "Iterator::collect::<Vec<_>> gathers all items in order")
         R(r"^core::iter::traits::iterator::Iterator::sum$", m_sum, "Iterator::sum adds all items in the result type (overflow panics in debug builds: A4)")
         R(r"as core::iter::traits::iterator::Iterator>::fold$|^core::iter::traits::iterator::Iterator::fold$", lambda ci: ("app", "fold", (ci.args[0], ci.args[1], ci.args[2])), "Iterator::fold(init, f)")
         R(r"as core::iter::traits::collect::IntoIterator>::into_iter$|^core::iter::traits::collect::IntoIterator::into_iter$", m_into_iter, "IntoIterator for iterators is identity; for &Vec / &mut Vec it is slice iteration")
@@ -450,6 +453,59 @@ def m_unwrap_or(ci):
     d = ("discr", x)
     some_idx = 1 if "option" in ci.name else 0
     return ("fork", [([(d, some_idx)], ("unwrap", x)), ([(d, 1 - some_idx)], dflt)])
+
+
+def m_opt_comb(ci):
+    which = ci.name.split("::")[-1]
+    x = ci.args[0]
+    ev = ci.ev
+
+    def on_some(v):
+        f = ci.args[2] if which in ("map_or", "map_or_else") else ci.args[1]
+        r = apply_closure(ci, f, [v])
+        if r is None:
+            return None
+        if which == "map":
+            return some(ev, r)
+        return r
+
+    def on_none():
+        if which == "map_or":
+            return ci.args[1]
+        if which == "map_or_else":
+            return apply_closure(ci, ci.args[1], [])
+        if which in ("map", "and_then"):
+            return none(ev)
+        if which == "is_some_and":
+            return FALSE
+        if which == "is_none_or":
+            return TRUE
+        return None
+    if x[0] == "adt":
+        return on_some(x[4][0]) if x[3] == "Some" else on_none()
+    sv = on_some(("unwrap", x))
+    nv = on_none()
+    if sv is None or nv is None:
+        return None
+    d = ("discr", x)
+    return ("fork", [([(d, 1)], sv), ([(d, 0)], nv)])
+
+
+def m_res_comb(ci):
+    which = ci.name.split("::")[-1]
+    x = ci.args[0]
+    ev = ci.ev
+    if x[0] != "adt":
+        return None
+    if which == "map":
+        if x[3] == "Ok":
+            r = apply_closure(ci, ci.args[1], [x[4][0]])
+            return ok(ev, r) if r is not None else None
+        return x
+    if x[3] == "Err":
+        r = apply_closure(ci, ci.args[1], [x[4][0]])
+        return err(ev, r) if r is not None else None
+    return x
 
 
 def m_copied(ci):
